@@ -485,9 +485,9 @@ def design(chk, out):
 
 
 # ---------------------------------------------------------------------------
-def inputs_key(t):
+def inputs_key(t, upto):
     steps = [dict((k, s[k]) for k in ('act', 'src', 'pts', 'lin'))
-             for s in t['steps']]
+             for s in t['steps'][:upto]]
     return hashlib.sha1(json.dumps([t['cfg'], steps],
                                    sort_keys=True).encode()).hexdigest()
 
@@ -589,7 +589,10 @@ def check(chk):
         th.start()
         sessions = gen_sessions(chk.tier, rng)
     t0 = time.time()
-    traces = run_sessions(chk, sessions)
+    # C14_SEED_DEFECT=<mutant of c14_driver.py>: demonstration of the
+    # VIOLATION / replay path (driver process only; no evidence is kept)
+    traces = run_sessions(chk, sessions,
+                          mutant=os.environ.get('C14_SEED_DEFECT') or None)
     phase['real_code_s'] = round(time.time() - t0, 1)
     t0 = time.time()
     verdicts, st = validate(chk, traces)
@@ -612,8 +615,9 @@ def check(chk):
         for s in t['steps']:
             nvals += sum(len(r) for r in s['res'])
         v = by_v.get(t['id'])
-        if v and set(v['applied']) & {'formula', 'bounds', 'linear'}:
-            nontriv.add(inputs_key(t))
+        for ps in (v['per_step'] if v else ()):
+            if set(ps['applied']) & {'formula', 'bounds', 'linear'}:
+                nontriv.add(inputs_key(t, ps['k']))
 
     def sample(pred):
         for t in traces:
@@ -639,21 +643,22 @@ def check(chk):
         defect_sensitivity=dsg.get('sensitivity', {}),
         traces_validated_against_impl=len(verdicts),
         sessions=len(sessions),
-        evaluations=nvals,
-        interpolate_steps=sum(v['isteps'] for v in verdicts),
+        evaluations=sum(v['isteps'] for v in verdicts),
+        values_judged=nvals,
         failing_histories=sum(1 for v in verdicts if v['failed']),
         crashed_histories=sum(1 for t in traces if t.get('crashed')),
         distinct_nontrivial=len(nontriv),
-        rule='a case is one history: a configuration (api, method, '
-             'dimension, kernel, number of source arrays, lattice unit) and '
-             'a sequence of Reset / SetPoints / UpdateArrays / MoveUpdate / '
-             'SetValues / Interpolate steps with the complete abstract '
-             'state after each, driven through the real object; distinct by '
-             'all inputs; non-trivial when at some point of some '
-             'Interpolate step one of the clauses formula (exact value), '
-             'bounds (a source strictly inside the support) or linear '
-             '(order1, moment matrix well conditioned) applies; '
-             'evaluations = recorded values judged',
+        rule='a case is one Interpolate step of a history driven through '
+             'the real object: the configuration (api, method, dimension, '
+             'kernel, source array names, lattice unit) and the sequence of '
+             'Reset / SetPoints / UpdateArrays / MoveUpdate / SetValues / '
+             'Interpolate steps up to it with the complete abstract state '
+             'after each; evaluations = Interpolate steps executed; '
+             'distinct by all those inputs; non-trivial when at some point '
+             'of the step one of the clauses formula (exact value), bounds '
+             '(a source strictly inside the support) or linear (order1, '
+             'moment matrix well conditioned) applies, as reported by TLC '
+             '(per_step.applied)',
         exhaustive=False,
         classes=stats,
         phase_s=phase,
@@ -683,6 +688,8 @@ def check(chk):
         'one compiled evaluator per session; a history\'s Reset on a live '
         'object is update_particle_arrays + set_interpolation_points',
     ]
+    if os.environ.get('C14_SEED_DEFECT'):
+        chk.args.replay = chk.args.replay or 'seeded-defect'   # no evidence
     chk.finish()
 
 
